@@ -53,7 +53,7 @@ META = {
               "type is the creation type, failed casts return body/message/heap unchanged, values read/cloned/cast equal the value stored, every box is "
               "released exactly once with no undefined access (no_double_free_no_leak, all_released_exactly_once_at_end), Message::length = 64 + declared "
               "length, derived length = sum over the active variant's fields, fixed-size arrays count every element, lengths are invariant under permutation of members and depend only on the abstract value (clone included; length_depends_only_on_value, seq_len_perm_invariant). Tied to the code on every run by replaying generated op histories over a "
-              "58-type family built in varying in-memory layouts, declared lengths up to 2^60 and busy time checked against the exact rational at several bitrates, with destructor counters on real Messages and comparing every answer, value, length, channel busy time and drop count."),
+              "73-type family (incl. one-byte elements with other declared lengths, hash tables of up to 80 entries, same-named distinct types; Ty = TypeId identity, not type_name) built in varying in-memory layouts, declared lengths up to 2^60 and busy time checked against the exact rational at several bitrates, with destructor counters on real Messages and comparing every answer, value, length, channel busy time and drop count."),
         design_ref="DESIGN.md §5 C16",
         note=("Trusted: Lean kernel; axioms propext/Quot.sound; TypeId injectivity (Ty = type name); the hand transcription Rust->Lean and the harness's "
               "value<->term rendering (validated by the correspondence runs); harness, driver parser, orchestrator. Out of scope: real memory semantics "
@@ -203,12 +203,12 @@ META = {
     "C20": dict(
         text=("Lean 4 theorems about a typed ownership graph of a stopped des simulation (Runtime/Sim, Profiler, Globals, ModuleTree, ctx/processor/state/PE, async ext, tokio rt, task cell/state, mpsc, driver, TimerQueue/Slot, gates with connection slots, channels, probes, buffer entries, messages, bodies, queued/event connections, event entries in FES / Profiler.remaining / BUF_CTX) "
               "with reference-count drop semantics and the destructors ModuleContext::drop=>dissolve_paths and TimerSlotEntryHandle::drop: no node is freed twice (any graph), dissolve_paths terminates on any wiring incl. rings with fuel #conn+1, dropping never errs within #roots+#edges steps, "
-              "the strong edges not cut by dissolve_paths are ranked for every description of the repaired code, hence every module state, PE, task state, body and probe is freed exactly once. Tied to the code by generated real simulations x stopping points with destructor counters; a second and a third simulation in the same process must reproduce the fresh-process trace including build-time clock readings. Stopping points include manual stepping without finish(), a failing inner application and panics unwinding through the Runtime; counters are read right after the drop and again after two follow-up simulations, which must complete (helper thread, time-out). Module kinds include AsyncFn::new / failable / io tasks (pending, holding messages, finished); events at SimTime::MAX are covered as pending events at drops that do not drain."),
+              "the strong edges not cut by dissolve_paths are ranked for every description of the repaired code, hence every module state, PE, task state, body and probe is freed exactly once. Tied to the code by generated real simulations x stopping points with destructor counters; a second and a third simulation in the same process must reproduce the fresh-process trace including build-time clock readings. Stopping points include manual stepping without finish(), a failing inner application and panics unwinding through the Runtime; counters are read right after the drop and again after two follow-up simulations, which must complete (helper thread, time-out). Module kinds include AsyncFn::new / failable / io tasks (pending, holding messages, finished); events at SimTime::MAX are covered as pending events at drops that do not drain. Handlers look up parent/child modules; bodies include zero-sized credits with counting destructors."),
         design_ref="DESIGN.md §5 C20",
         note=("Partial: the tie observes counters / queue lengths / event counts only, not the reference graph; tokio drops task futures with the runtime (assumption); order-independence of plain decrements "
               "(dissolve releases deferred in the model - plain_frees_below_gates proves no destructor below a gate removes handles). all_user_objects_freed_once holds for EVERY description of the repaired code "
-              "(keepChan = false, hookGlobals = false, taskCtx = false: queued connections do not keep their channel, the panic hook holds nothing, a spawned task holds no strong reference to its module context; every_description_is_closed discharges the closure conditions; no well-formedness hypothesis). Witnesses: backlog_cycle_witness (pre-repair code leaks, F12 fixed by c3eebb0), "
-              "timer_bookkeeping_residue_witness (TimerQueue<->TimerSlot stays allocated, not user-visible), hook_holds_globals_witness (a hook capturing Arc<Globals> keeps the module tree alive after a drop without at_sim_end), task_captures_ctx_witness. Events at SimTime::MAX are never made the next event of a run (calendar scan), unread AsyncFn messages are only bounded, not counted. Roots per stopping point (Own.Stop) documented, lock-poison recovery observed only."),
+              "(keepChan = false, hookGlobals = false, taskCtx = false, parentCache = false: queued connections do not keep their channel, the panic hook holds nothing, a spawned task holds no strong reference to its module context; every_description_is_closed discharges the closure conditions; no well-formedness hypothesis). Witnesses: backlog_cycle_witness (pre-repair code leaks, F12 fixed by c3eebb0), "
+              "timer_bookkeeping_residue_witness (TimerQueue<->TimerSlot stays allocated, not user-visible), hook_holds_globals_witness (a hook capturing Arc<Globals> keeps the module tree alive after a drop without at_sim_end), task_captures_ctx_witness, parent_cache_witness. Events at SimTime::MAX are never made the next event of a run (calendar scan), unread AsyncFn messages are only bounded, not counted. Roots per stopping point (Own.Stop) documented, lock-poison recovery observed only."),
         technique=_T),
     "C09": dict(
         text=("Lean 4 theorems about the kernel model Net (scripted modules, future event set, buffered emissions flushed by buf_process, shutdown request consumed at the end of the event: deactivate, drop runtime, reset, schedule ModuleRestartEvent; "
